@@ -1,6 +1,8 @@
 # Copyright (c) Microsoft Corporation and Fairlearn contributors.
 # Licensed under the MIT License.
 
+import numpy as np
+
 
 class ThresholdOperation:
     """Represents the threshold operations that are used in postprocessing approaches.
@@ -48,10 +50,13 @@ class ThresholdOperation:
         y_hat : array
             The result of elementwise application of the threshold rule.
         """
+        # a NumPy scalar, so that scores of a narrower floating-point type are
+        # widened for the comparison instead of the threshold being rounded to them
+        threshold = np.float64(self._threshold)
         if self._operator == ">":
-            return y_hat > self._threshold
+            return y_hat > threshold
         elif self._operator == "<":
-            return y_hat < self._threshold
+            return y_hat < threshold
         else:
             raise ValueError("Unrecognized operator: " + self._operator)
 
